@@ -94,6 +94,9 @@ MUTANTS = [
     M('C08-initial-site', 'C08', 'R4/initial-site', (SITE, 'let position = -0.5 + 0.5 / wyckoff.multiplicity() as f64;', 'let position = -0.5 - 0.5 / wyckoff.multiplicity() as f64;')),
     # C09
     M('C09-clone-wrong-field', 'C09', 'R3/clone-fidelity', (CELL, 'ratio: SharedValue::new(self.ratio.get_value()),', 'ratio: SharedValue::new(self.length.get_value()),')),
+    M('C09-time-boxed-inner-loop', 'C09', 'R5/no-nondeterminism-source',
+      (OPT, '        let mut rng = Pcg64Mcg::seed_from_u64(self.seed);', '        let started = std::time::Instant::now();\n        let mut rng = Pcg64Mcg::seed_from_u64(self.seed);'),
+      (OPT, '            for _ in 0..self.inner_steps {\n', '            for _ in 0..self.inner_steps {\n                if started.elapsed().as_millis() > 100 {\n                    break;\n                }\n')),
     M('C09-seed-zero', 'C09', 'R6/seeded-with-replica-index', (MAIN, '                .seed(index)\n                .build()\n                .optimise_state(opt_state);\n            (index, result)', '                .seed(0)\n                .build()\n                .optimise_state(opt_state);\n            (index, result)')),
     M('C09-thread-rng-in-sample', 'C09', 'R5/', (BAS, 'self.get_value() + step_size * self.value_range() * rng.gen_range(-0.5, 0.5)', 'self.get_value() + step_size * self.value_range() * rand::thread_rng().gen_range(-0.5, 0.5)')),
     # C10
@@ -169,6 +172,9 @@ MUTANTS = [
 ]
 
 BENIGN = [
+    B('elapsed-time-in-a-log-line', ['C05', 'C09', 'C18', 'C20'],
+      (OPT, '        let mut rng = Pcg64Mcg::seed_from_u64(self.seed);', '        let started = std::time::Instant::now();\n        let mut rng = Pcg64Mcg::seed_from_u64(self.seed);'),
+      (OPT, '            kt *= self.kt_ratio;', '            debug!("loop {} finished after {:?} ({} s)", loop_counter, started.elapsed(), started.elapsed().as_secs_f64());\n            kt *= self.kt_ratio;')),
     B('rename-locals-optimiser', ['C05', 'C06', 'C07', 'C18', 'C19', 'C20'],
       (OPT, 'let mut kt: f64 = self.kt_start;', 'let mut temperature: f64 = self.kt_start;'),
       (OPT, 'self.accept_score(state.score(), score_current, kt, &mut rng)', 'self.accept_score(state.score(), score_current, temperature, &mut rng)'),
